@@ -200,10 +200,11 @@ TEXT = {
               _NOTE + "; accesses inside libstdc++.so are invisible to the detector", "seeded schedule and reads-from search with vector-clock race detection"),
     "C09": _t("seeded search over 2..5 participants x 1..4 generations with arbitrary drop-outs, spurious wake-ups, lapping; oracle: at the return of an "
               "n-th arrival the number of invoked n-th arrivals equals the statically required number; deadlock detector for lost wake-ups; published "
-              "per-generation slots under the race detector in C07",
+              "per-generation slots under the race detector in C07; slow participants (simulated sleeps up to 2 h) and clock jumps at timed waits",
               _NOTE, "seeded schedule search with arrival-count oracle and deadlock detection"),
     "C10": _t("seeded search over arrivers, waiters, arrive_and_wait participants, late waiters, over-arrival, spurious wake-ups; oracle: wait returns only "
-              "after >= count arrivals were invoked, all threads finish (lost wake-up = deadlock), lone arrivals return",
+              "after >= count arrivals were invoked, all threads finish (lost wake-up = deadlock), lone arrivals return; slow arrivers (simulated "
+              "sleeps) and clock jumps at timed waits",
               _NOTE, "seeded schedule search with arrival-count oracle and deadlock detection"),
     "C11": _t("seeded search over activator / triggerers / waiters (wait, wait_for, waitActivation, wait_forActivation) / resetters over one or two "
               "activation epochs with spurious wake-ups, time jumps (time-outs at arbitrary points) and stale reads; post-hoc history oracle over "
@@ -211,7 +212,8 @@ TEXT = {
               _NOTE, "seeded schedule search with event-history oracle and deadlock detection"),
     "C12": _t("seeded search over traversals and push_front/push_back/emplace/erase; per traversal: only pushed values, no duplicates, every stable "
               "element visited; black-box serialisation search: some real-time-respecting order of the pushes must explain the final list order and "
-              "make every traversal a subsequence; final membership = pushed minus erased",
+              "make every traversal a subsequence; final membership = pushed minus erased; pre- and post-increment, operator-> and operator* "
+              "traversals; M = std::recursive_mutex with element constructors that push to the list they are emplaced into (job rcu.reenter)",
               _NOTE, "seeded schedule search with serialisation search against a sequential reference list"),
     "C13": _t("seeded search over handle acquisition/release, pushes, erases (also double erase), throwing emplace, for Tracked / std::string / trivially "
               "destructible element types with a monitoring allocator (construct/destroy/allocate/deallocate state machine per pointer) and with "
@@ -229,12 +231,14 @@ TEXT = {
               _NOTE, "seeded schedule search with Wing-Gong linearizability check and quarantining heap"),
     "C18": _t("seeded search over getFuture / setDelayedValue (copy, move; int and string keys; unknown and completed keys) / fulfillAllPromises / "
               "finishedWithValue / queries / destruction with consumers blocked in future::get() inside the simulation (futex shim); any std::future_error "
-              "is a violation; Wing-Gong linearizability against a per-key life-cycle model fixes the admissible value of every future",
+              "is a violation; Wing-Gong linearizability against a per-key life-cycle model fixes the admissible value of every future; an endless "
+              "loop without synchronisation inside the library (e.g. a corrupted map walk under the lock) is reported as class endless_loop",
               _NOTE, "seeded schedule search with life-cycle linearizability model and deadlock detection"),
     "C19": _t("seeded search over trigger destruction variants (direct, move-constructed, move-assigned, chains) and polling detectors on explicit lines, "
               "and on the declared/indexed static lines with every run in a fresh forked child; oracles: false* true* per detector, true only after the "
               "duty-holder's destruction began, other lines untouched, out-of-range index throws, and the datum written before destruction is read "
-              "race-free (happens-before detector with stale reads enabled)",
+              "race-free (happens-before detector with stale reads enabled); creator handing all its references over before the threads start; one "
+              "detector object polled by several threads",
               _NOTE, "seeded schedule and reads-from search with trip-order oracle and race detection"),
     "C20": _t("fault = k-th invocation of user code throws (functors, payload copy-ctor/assignment, predicates, callbacks, cow copy) combined with schedule "
               "search; oracles: exception reaches the caller or the future, held-lock set restored, wrappers stay usable (deadlock detector), lr_guarded "
@@ -245,6 +249,8 @@ TEXT = {
               _NOTE, "writer-freeze fault injection at every visible step plus bounded-liveness search"),
     "C15": _t("seeded search over 1..3 threads issuing load/store/assign/convert/exchange/compare_exchange (unique values) on atomic_guarded, guarded, "
               "guarded_opt, ordered_guarded and load/modify_detach on deferred_guarded; recorded histories (simulator sequence stamps) are checked with a "
-              "Wing-Gong linearizability search against a sequential register; torn loads reported online",
+              "Wing-Gong linearizability search against a sequential register; torn loads reported online; job atomic_small: atomic_guarded<T> for "
+              "word-sized trivially copyable T (long, 2x32-bit pair, byte) and std::string with the race detector on; quiescent-load rule for "
+              "deferred_guarded (a load on an idle object must apply every modification whose submission had returned)",
               _NOTE, "seeded schedule search with Wing-Gong linearizability check against a register model"),
 }
